@@ -3,7 +3,8 @@
 
 Rule (DESIGN §4 C35): inside one `fn` body a guard bound by `let g = x.lock()/.read()/.write().unwrap();`
 is held to the end of its block, a guard that is a temporary inside an expression is held to the
-end of that statement (including nested blocks of the statement: over-approximation); calls to other
+end of that statement (including nested blocks of the statement, e.g. a `match`/`if let` scrutinee —
+but the temporaries of a plain `if`/`while` CONDITION are dropped before its block, as in Rust); calls to other
 functions of the analysed files are inlined (recursively, depth-limited, by method NAME: every
 function of that name in the analysed files is a candidate — over-approximation), a call whose
 receiver is a guard variable is a method of the protected data and is not inlined.  A function
@@ -256,6 +257,11 @@ class Analysis:
 
         for m in tok.finditer(body):
             if m.group("open"):
+                # temporaries of a plain `if` / `while` condition are dropped before the block runs
+                # (not so for `if let` / `while let` / `match` scrutinees, which live through the block)
+                header = body[stmt_start:m.start()].strip()
+                if re.match(r"(else )?(if|while) ", header) and not re.search(r"\blet\b", header):
+                    temps[:] = [t for t in temps if t[1] < depth]
                 depth += 1
                 stmt_start = m.end()
             elif m.group("close"):
@@ -263,6 +269,11 @@ class Analysis:
                 temps[:] = [t for t in temps if t[1] < depth]
                 depth -= 1
                 stmt_start = m.end()
+                # a block that ends its statement (no `else`, `.method`, `;`, `)`, `,`, `?` follows)
+                # also ends the statement's temporaries
+                nxt = body[m.end():].lstrip()
+                if not nxt.startswith(("else", ".", ";", ")", ",", "?", "}", "as ", "+", "-", "*", "/", "&&", "||", "==", "!=", "<", ">", "]")):
+                    temps[:] = [t for t in temps if t[1] < depth]
             elif m.group("semi"):
                 temps[:] = [t for t in temps if t[1] < depth]
                 stmt_start = m.end()
